@@ -373,6 +373,8 @@ class NumPE(TokPE, StrPE):
             c2 = pe.mk("icmp.eq", "i1", r, pe.C(2), 32)
             self.store(state, errno_loc, pe.mk("select", "i32", c2, pe.C(ERANGE), old_errno))
             return pe.mk("select", "i64", c2, pe.C(-1), pe.mk("select", "i64", c1, pe.C(I64_MIN), pe.C(5)))
+        if nm == "__ctype_b_loc":
+            return ("ptr", "ctypeloc", ())
         return TokPE.call_model(self, state, frame, i, args)
 
 
